@@ -49,6 +49,13 @@ def recipe(c: Check):
     if st and c.harness_ok and (cc.get("NSPLIT", 0) == 0 or cc.get("NWAITING", 0) == 0):
         c.broken.append(dict(kind="sanity", name="limit driver never reached the split-write / waiting-reservation branches",
                              detail=str(cc)))
+    # replay of the repaired F-C01a: real client udp/sudp proxies over a counting connection
+    c.run_driver("udpclose", 0, coq=False, timeout=60)
+    # the real vhost https / tcpmux muxers with a 300 ms sniffing timeout, used before and after it elapsed
+    st = c.run_driver("vhostmux", q(c.tier, 12, 60), shards=1, timeout=120)
+    cc = c.cov.get("coq_counters", {}).get("vhostmux", {})
+    if st and cc.get("NAGED", 0) == 0:
+        c.broken.append(dict(kind="sanity", name="vhostmux driver never used a routed connection older than the muxer timeout", detail=str(cc)))
     # timing observations (close seen within the bound, configuration up within 8 s) are runtime residue: a failure of
     # that kind (or any failure confined to kcp configurations: UDP on a loaded loopback) is re-run on the same seed and reported only if it reproduces every time (DESIGN section 3)
     timing = ("mismatch:tunnel:code27", "tunnel-setup:")
@@ -84,7 +91,10 @@ def recipe(c: Check):
              "payloads 0 B..200 KiB (thorough: ..4 MiB; random, zero runs, text, all-zero; random chunking and read sizes); each connection "
              "carries its own tag and seeded streams in both directions. Compared in Coq with the model: backend reached (br_bridge), exact "
              "proxy-protocol header bytes predicted from the user's source address, stream equality, complete-then-EOF, close seen within "
-             "2.5 s, elapsed time vs limit. distinct = distinct case text; non-trivial = non-empty payload",
+             "2.5 s, elapsed time vs limit. vhostmux driver: real vhost.NewHTTPSMuxer / tcpmux.NewHTTPConnectTCPMuxer (passthrough on/off) with a 300 ms "
+             "sniffing timeout, head sent in random segments, routed connection used at age 0 and at age > timeout: bytes read from it compared "
+             "with the SharedConn model, writes towards the user must succeed. udpclose driver: Close() calls reaching the underlying work "
+             "connection of real client udp/sudp proxies with and without a client-side limit. distinct = distinct case text; non-trivial = non-empty payload",
         assumptions=["cipher / compressor / transports are lawful codecs and reliable pipes (explicit hypotheses codec_lawful in C01_mirror_transparent; "
                      "satisfiable: C01_example_codecs)",
                      "request times of one limiter are non-decreasing (monotonic clock) in C01_bucket_bound; float64 rounding of x/time/rate not modelled",
